@@ -360,6 +360,115 @@ def split_stage(ctx, n_cases):
     ctx.extra["split_matrix_worst_relative_norm_change"] = worst
 
 # =====================================================================================================
+# precision stream: generic non-dyadic complex128 data, dims 2 AND 3, jump operators whose L^dagger L is NOT diagonal,
+# states with coherences; independent numpy complex128 reference at 1e-12 relative to the data scale + dtype oracle
+PREC_TOL = 1e-12
+
+
+def gen_precision_case(rng):
+    d = rng.choice([2, 2, 3])
+    n = rng.choice([2, 2, 3])
+    g = lambda s=1.0: [rng.gauss(0, s), rng.gauss(0, s)]  # noqa: E731
+    z = [0.0, 0.0]
+    ops = []
+    for _ in range(rng.randint(2, 4)):
+        style = rng.choice(["dense", "row", "sx+n", "dense"])
+        if style == "dense":
+            m = [[g(0.8) for _ in range(d)] for _ in range(d)]
+        elif style == "row":          # |a><superposition|, e.g. |g><+| : L^dagger L = |+><+| is not diagonal
+            a = rng.randrange(d)
+            m = [[g(0.8) if i == a else z for _ in range(d)] for i in range(d)]
+        else:                          # alpha sigma_x + beta n on the qubit levels
+            al, be = g(0.8), g(0.8)
+            m = [[z for _ in range(d)] for _ in range(d)]
+            m[0][1], m[1][0], m[1][1] = al, al, be
+        ops.append(m)
+    bonds = [1] + [rng.choice([2, 3]) for _ in range(n - 1)] + [1]
+    factors = [[[[g() for _ in range(bonds[i + 1])] for _ in range(d)] for _ in range(bonds[i])] for i in range(n)]
+    return {"kind": "precision", "n": n, "d": d, "ops": ops, "factors": factors, "scale": rng.uniform(0.4, 1.0),
+            "choice": rng.randrange(n * len(ops)), "u": rng.random()}
+
+
+def precision_case(ctx, case):
+    import torch
+    from emu_mps import MPS
+
+    n, d = case["n"], case["d"]
+    ops = [np.array([[complex(*x) for x in r] for r in m]) for m in case["ops"]]
+    k = len(ops)
+    impl = _make_impl(_tiny_prob(n), ops, d)
+    with rebound_random(RandProxy(uniforms=[0.5])):
+        impl.init()
+    worst = 0.0
+
+    def check(name, got, ref):
+        nonlocal worst
+        scale = max(1.0, float(np.abs(ref).max()))
+        err = float(np.abs(np.asarray(got) - ref).max()) / scale
+        worst = max(worst, err)
+        if err > PREC_TOL:
+            ctx.violation(f"{name} differs from the complex128 reference by {err:.3g} relative to the data scale "
+                          f"(bound {PREC_TOL:g}, dim {d})", {"case": case, "entry_point": name,
+                                                             "finding_key": "lindblad-lost-precision"})
+            return False
+        return True
+
+    if impl.aggregated_lindblad_ops.dtype != torch.complex128 or impl.lindblad_noise.dtype != torch.complex128:
+        ctx.violation(f"init_lindblad_noise produces dtypes {impl.aggregated_lindblad_ops.dtype} / "
+                      f"{impl.lindblad_noise.dtype}", {"case": case, "finding_key": "lindblad-lost-precision"})
+        return None
+    LdL = [L.conj().T @ L for L in ops]
+    if not check("aggregated_lindblad_ops", impl.aggregated_lindblad_ops.numpy(), np.array(LdL)):
+        return worst
+    if not check("lindblad_noise", impl.lindblad_noise.numpy(), -0.5j * sum(LdL)):
+        return worst
+    # one Monte-Carlo step with scripted randomness on a state with coherences
+    factors = [torch.tensor(np.array([[[complex(*zz) for zz in y] for y in x] for x in f]), dtype=torch.complex128)
+               for f in case["factors"]]
+    st = MPS(factors, eigenstates=("r", "g") if d == 2 else ("r", "g", "x"), num_gpus_to_use=0)
+    st.orthogonalize(0)
+    st *= case["scale"] / float(st.norm())
+    impl.state = st
+    psi = mps_to_dense(st)
+    proxy = RandProxy(uniforms=[case["u"]], choice_index=case["choice"])
+    with rebound_random(proxy):
+        impl.do_random_quantum_jump()
+    pop, weights, _ = proxy.choices_calls[0]
+    w_ref = np.array([float(np.real(np.vdot(psi, embed_d(LdL[kk], q, n, d) @ psi))) for q in range(n) for kk in range(k)])
+    if [int(q) for q, _ in pop] != [q for q in range(n) for _ in range(k)] or len(weights) != n * k:
+        ctx.violation("jump candidates are not ordered (qubit, operator)", {"case": case, "finding_key": "jump-weights"})
+        return worst
+    err_w = float(np.abs(np.array(weights, dtype=float) - w_ref).max()) / max(1.0, float(np.abs(w_ref).max()))
+    worst = max(worst, err_w)
+    if err_w > PREC_TOL:
+        key = "lindblad-lost-precision" if err_w < 1e-5 else "jump-weights"
+        ctx.violation(f"the weights handed to random.choices differ from <psi|L^dagger L|psi> per (qubit, operator) by "
+                      f"{err_w:.3g} relative (dim {d}, operators with non-diagonal L^dagger L, state with coherences)",
+                      {"case": case, "weights": [float(x) for x in weights], "reference": w_ref.tolist(),
+                       "finding_key": key})
+        return worst
+    q, kk = divmod(case["choice"], k)
+    after_ref = embed_d(ops[kk], q, n, d) @ psi
+    after_ref = after_ref / np.linalg.norm(after_ref)
+    if any(f.dtype != torch.complex128 for f in impl.state.factors):
+        ctx.violation("the jumped state is not complex128", {"case": case, "finding_key": "lindblad-lost-precision"})
+        return worst
+    check("state after the jump", mps_to_dense(impl.state), after_ref)
+    return worst
+
+
+def precision_stage(ctx, n_cases):
+    worst = 0.0
+    for _ in range(n_cases):
+        c = gen_precision_case(ctx.rng)
+        w = precision_case(ctx, c)
+        ctx.count_case({"kind": "precision", "n": c["n"], "d": c["d"], "ops": len(c["ops"]), "choice": c["choice"],
+                        "err": w}, nontrivial=True)
+        worst = max(worst, w or 0.0)
+    ctx.extra["precision_stream_worst_relative_error"] = worst
+
+
+# =====================================================================================================
 # dense references for local dimension d (level 0 = g, 1 = r, 2 = x: inert leakage level)
 def embed_d(op, j, n, d):
     out = np.array([[1.0 + 0j]])
@@ -492,6 +601,21 @@ def gen_noise_spec(rng, kind, d):
                 op[i][2] = [0.0, 0.0]
                 op[2][i] = [0.0, 0.0]
         return {"eff": [[g(3, 8), op]], "relaxation": g(1, 4)}
+    if kind == "offdiag":
+        # effective operators whose L^dagger L has off-diagonal elements: |g><+| , a sigma_x + b n  (and |x><+| for d = 3)
+        s2 = round(1 / math.sqrt(2), 6)
+        op1 = [[[0.0, 0.0]] * d for _ in range(d)]
+        op1[0] = [[s2, 0.0], [s2, 0.0]] + [[0.0, 0.0]] * (d - 2)
+        a, b = round(rng.uniform(0.4, 1.0), 2), round(rng.uniform(0.4, 1.0), 2)
+        op2 = [[[0.0, 0.0]] * d for _ in range(d)]
+        op2[0] = [[0.0, 0.0], [a, 0.0]] + [[0.0, 0.0]] * (d - 2)
+        op2[1] = [[a, 0.0], [0.0, b]] + [[0.0, 0.0]] * (d - 2)
+        eff = [[g(3, 8), op1], [g(2, 6), op2]]
+        if d == 3:
+            op3 = [[[0.0, 0.0]] * 3 for _ in range(3)]
+            op3[2] = [[s2, 0.0], [0.0, s2], [0.0, 0.0]]       # |x>(<g| - i<r|)/sqrt2
+            eff.append([g(2, 6), op3])
+        return {"eff": eff}
     if kind == "leakage":
         rx = [[[0.0, 0.0]] * 3 for _ in range(3)]
         rx[2] = [[0.0, 0.0], [1.0, 0.0], [0.0, 0.0]]      # |x><r|
@@ -508,10 +632,10 @@ def gen_bad_mask(rng, n):
     return [i in idx for i in range(n)]
 
 
-def gen_case(rng, kind, n, M, coarse=False, bad=None, reorder=False):
+def gen_case(rng, kind, n, M, coarse=False, bad=None, reorder=False, d=None):
     """coarse: 6 steps of 40 ns — only for n = 2, where a TDVP step is ONE exact two-site exponential (no splitting
     error), which makes trajectories cheap enough for thousands of samples."""
-    d = 3 if kind == "leakage" else 2
+    d = d or (3 if kind == "leakage" else 2)
     steps = 20 if n <= 3 else 14
     dt = 10.0
     ngood = n - (sum(bad) if bad else 0)
@@ -789,8 +913,8 @@ def det_case(ctx, case):
     return out
 
 
-def gen_det_case(rng, kind, n, jump, bad=None, reorder=False):
-    c = gen_case(rng, kind, n, 1, bad=bad, reorder=reorder)
+def gen_det_case(rng, kind, n, jump, bad=None, reorder=False, d=None):
+    c = gen_case(rng, kind, n, 1, bad=bad, reorder=reorder, d=d)
     c["kind"] = "det"
     d = c["d"]
     k = len(noise_ops(c["noise"], d))
@@ -819,6 +943,8 @@ def falsifier_stage(ctx):
         nt = [3, 4, 5, 4][i % 4]
         det.append(gen_det_case(ctx.rng, kinds2[i % 5], nt, jump=(i % 3 != 0), bad=gen_bad_mask(ctx.rng, nt),
                                 reorder=(i % 2 == 1)))
+    for i in range(ctx.n(6, 40)):      # jump operators with non-diagonal L^dagger L, 2 and 3 levels, forced jumps
+        det.append(gen_det_case(ctx.rng, "offdiag", [2, 3, 2][i % 3], jump=True, d=[2, 3][i % 2]))
     for i in range(ctx.n(2, 10)):      # reordering without bad atoms
         det.append(gen_det_case(ctx.rng, kinds2[i % 5], [3, 4][i % 2], jump=True, reorder=True))
     if ctx.thorough():
@@ -883,6 +1009,7 @@ def run(ctx):
     init_noise_stage(ctx, ctx.n(20, 200))
     jump_stage(ctx, ctx.n(16, 160))
     split_stage(ctx, ctx.n(40, 400))
+    precision_stage(ctx, ctx.n(30, 300))
     falsifier_stage(ctx)
     ctx.rule = ("(a) init_lindblad_noise: 1-5 Gaussian-integer / quarter-integer 2x2 jump operators, exact. (b) "
                 "do_random_quantum_jump: random MPS (2-3 sites, bond 1-2, norm 0.5-1), 1-3 random complex operators, "
@@ -916,7 +1043,9 @@ def run(ctx):
 def replay(ctx, path):
     rp = json.load(open(path))
     case = rp["case"]
-    if case.get("kind") == "det":
+    if case.get("kind") == "precision":
+        print("replay worst relative error:", precision_case(ctx, case))
+    elif case.get("kind") == "det":
         print("replay:", det_case(ctx, case))
     elif case.get("kind") == "public-run":
         print("replay:", public_run_case(ctx, case, FWER / (2 * case["n"])))
